@@ -16,8 +16,12 @@ mod channel;
 mod device;
 mod device_builder;
 mod device_info;
+#[cfg(cameleon_verif)]
+pub mod verif;
 
 pub use channel::{ControlChannel, ReceiveChannel};
+#[cfg(cameleon_verif)]
+pub use channel::{ControlIfaceInfo, ReceiveIfaceInfo};
 pub use device::Device;
 pub use device_builder::enumerate_devices;
 pub use device_info::{BusSpeed, DeviceInfo};
